@@ -15,7 +15,7 @@ pub fn def() -> PropDef {
 }
 
 pub const VOCAB: &[&str] = &["a", "bb", "ccc", "\u{e9}", "\u{4f60}", "x-y", "d.", "\x1b[1mq\x1b[0m", "t\tu"];
-pub const INDENTS: &[&str] = &["", " ", "> ", "- ", "  ", "#", "//", "* ", "+ "];
+pub const INDENTS: &[&str] = &["", " ", "> ", "> - ", "  ", "#", "//", "* ", "+ "];
 
 pub fn algs() -> Vec<(&'static str, WrapAlgorithm)> {
     vec![
